@@ -382,6 +382,35 @@ Fixpoint gpf_trace {n} (st : fstate n) (h : list (step_in n)) : list (fstate n) 
   | s :: h' => let st' := gpf_step st s in st' :: gpf_trace st' h'
   end.
 
+(* ---- time-varying histories ---------------------------------------------------
+   Everything a model may report differently at each call is an operand OF THE STEP: the state
+   model of the wrapped prediction (F_k, Q_k), the measurement model (its size m_k, H_k, R_k)
+   and its reading y_k, the scale factor of the likelihood model, the transition model of the
+   correction (Ft_k, Qt_k), the draws.  A step_in is built from the operands of that step only
+   (here for the linear-Gaussian family with Kalman steps as wrapped steps); GPFPrediction,
+   GPFCorrection, GaussianLikelihood and the wrapped steps keep NO derived quantity from one
+   call to the next, so the model has nowhere to keep one either. *)
+Record tv_ops (n : nat) := mkTvOps {
+  tv_m : nat;
+  tv_F : M O n n; tv_Q : M O n n;
+  tv_H : M O tv_m n; tv_R : M O tv_m tv_m; tv_y : M O tv_m 1;
+  tv_scale : T S;
+  tv_Ft : M O n n; tv_Qt : M O n n;
+  tv_zs : list (M O n 1)
+}.
+Arguments tv_m {n}. Arguments tv_F {n}. Arguments tv_Q {n}. Arguments tv_H {n}. Arguments tv_R {n}.
+Arguments tv_y {n}. Arguments tv_scale {n}. Arguments tv_Ft {n}. Arguments tv_Qt {n}. Arguments tv_zs {n}.
+
+Definition tv_step_in {n} (p : tv_ops n) : step_in n :=
+  mkStepIn (kf_pred_gstep (tv_F p) (tv_Q p))
+           (kf_corr_gstep true (tv_H p) (tv_R p) (tv_y p))
+           (gauss_lik (tv_scale p) true (tv_H p) (tv_R p) (tv_y p))
+           (lin_trans (tv_Ft p) (tv_Qt p))
+           (tv_zs p).
+
+Definition tv_run {n} (st : fstate n) (ps : list (tv_ops n)) : fstate n :=
+  gpf_run st (map tv_step_in ps).
+
 End GPF.
 
 Arguments mkParticle {_ n}. Arguments pstate {_ n}. Arguments pmean {_ n}. Arguments pcov {_ n}. Arguments plw {_ n}.
@@ -397,3 +426,6 @@ Arguments mkStepIn {_ n}. Arguments si_gp {_ n}. Arguments si_gc {_ n}. Argument
 Arguments si_trans {_ n}. Arguments si_zs {_ n}.
 Arguments mkFstate {_ n}. Arguments fs_pred {_ n}. Arguments fs_corr {_ n}. Arguments fs_valid {_ n}. Arguments fs_lik {_ n}.
 Arguments gpf_step {_ n}. Arguments gpf_run {_ n}. Arguments gpf_trace {_ n}.
+Arguments mkTvOps {_ n}. Arguments tv_m {_ n}. Arguments tv_F {_ n}. Arguments tv_Q {_ n}. Arguments tv_H {_ n}. Arguments tv_R {_ n}.
+Arguments tv_y {_ n}. Arguments tv_scale {_ n}. Arguments tv_Ft {_ n}. Arguments tv_Qt {_ n}. Arguments tv_zs {_ n}.
+Arguments tv_step_in {_ n}. Arguments tv_run {_ n}.
